@@ -128,11 +128,85 @@ class Tracer:
                 # default disposition: the process dies like a kill
                 self.nb.note("signal_default", signum=f["signum"])
                 os._exit(128 + int(f["signum"]))
-        if self.budget is not None and c > self.budget:
-            self.nb.note("budget_exhausted", steps=c, site=self.site(frame),
-                         stack=self.stack(frame))
-            os._exit(BUDGET_EXIT)
+        if self.budget is not None:
+            if c == self.budget // 2:
+                self.half_progress = self.progress(frame)
+            elif c > self.budget:
+                self.nb.note("budget_exhausted", steps=c, site=self.site(frame),
+                             stack=self.stack(frame), progress_half=self.half_progress,
+                             progress_end=self.progress(frame, diagnose=True))
+                os._exit(BUDGET_EXIT)
         return self._local
+
+    # loops whose progress variable tells "slow" from "stuck" when the budget runs out
+    PROGRESS_VARS = {
+        "FlowProposal.populate": "n_accepted",
+        "ImportanceFlowProposal.draw": "n_accepted",
+        "ImportanceFlowProposal.draw_from_flows": "count",
+        "Model._multiple_new_points": "n",
+        "ImportanceNestedSampler.populate_live_points": "n",
+        "ImportanceNestedSampler.draw_final_samples": "it",
+        "NestedSampler.populate_live_points": "i",
+    }
+    half_progress = None
+
+    def progress(self, frame, diagnose=False):
+        f = frame
+        while f is not None:
+            q = getattr(f.f_code, "co_qualname", f.f_code.co_name)
+            var = self.PROGRESS_VARS.get(q)
+            if var is not None and self._is_pkg(f.f_code.co_filename):
+                out = {"loop": q, "var": var, "value": None}
+                try:
+                    out["value"] = float(f.f_locals.get(var))
+                except Exception:
+                    pass
+                slf = f.f_locals.get("self")
+                if q == "FlowProposal.populate":
+                    out["bounded_by_max_samples"] = bool(getattr(slf, "accumulate_weights", False))
+                    try:
+                        out["n_proposed"] = float(f.f_locals.get("n_proposed"))
+                    except Exception:
+                        pass
+                if diagnose:
+                    out["cause"] = self.diagnose(q, slf)
+                return out
+            f = f.f_back
+        return None
+
+    def diagnose(self, q, slf):
+        """Why does a population loop accept nothing? (the process is about to exit:
+        drawing from the generators here perturbs nothing that is observed)"""
+        import numpy as np
+
+        was = self.enabled
+        self.enabled = False
+        try:
+            if q == "FlowProposal.populate":
+                z = slf.draw_latent_prior(64)
+                x, lp = slf.flow.sample_and_log_prob(z=z, alt_dist=slf.alt_dist)
+                if np.isnan(np.asarray(x, dtype=float)).all() or np.isnan(np.asarray(lp, dtype=float)).all():
+                    return "flow-returns-nan"
+                xs, lq = slf.backward_pass(z, rescale=not slf.use_x_prime_prior)
+                if len(xs) == 0:
+                    return "every-draw-outside-prior-bounds"
+                lw = slf.compute_weights(xs, lq)
+                if not np.isfinite(np.asarray(lw, dtype=float)).any():
+                    return "no-finite-weight"
+                return "draws-available-but-none-accepted"
+            if q == "ImportanceFlowProposal.draw":
+                x = slf.flow.sample_ith(i=slf.level_count, N=256)
+                if np.isnan(x).all():
+                    return "flow-returns-nan"
+                inside = np.all((x >= 0) & (x <= 1), axis=1)
+                if slf.reparameterisation is None and not inside.any():
+                    return "unconstrained-flow-outside-unit-hypercube"
+                return "draws-available-but-none-accepted"
+        except Exception as e:  # diagnosis only
+            return "diagnosis-failed:" + type(e).__name__
+        finally:
+            self.enabled = was
+        return "unknown"
 
     def dump_compact(self, path):
         import json
